@@ -176,6 +176,7 @@ func clientOrder(repo string) (string, error) {
 		"connection.go": {
 			"Connection.Send":      "connSend",
 			"Connection.reconnect": "reconnect",
+			"Connection.reader":    "connReader",
 		},
 	}
 	found := map[string][]string{}
@@ -207,7 +208,7 @@ func clientOrder(repo string) (string, error) {
 			}
 		}
 	}
-	order := []string{"request", "registerCallback", "unregisterCallback", "processQueryAnswer", "clientReader", "connSend", "reconnect"}
+	order := []string{"request", "registerCallback", "unregisterCallback", "processQueryAnswer", "clientReader", "connSend", "reconnect", "connReader"}
 	// token numbering: all tokens that occur, sorted; a token an obligation needs but the code lacks gets a number that
 	// occurs nowhere, so the obligation is false and `decide` fails
 	num := map[string]int{}
@@ -284,6 +285,12 @@ func clientOrder(repo string) (string, error) {
 	ob("reconnect_guarded_by_status",
 		"`Connection.reconnect`: under mu, the guard `status == Connecting` precedes the status change and the close — action `reconnectStart`",
 		"chain "+toks("call:mu.Lock", "if:status == Connecting", "store:status", "call:econn.close", "call:setupEncryptedConnection")+" reconnect = true")
+	ob("request_applies_client_timeout_first",
+		"`Request` derives its context with the client timeout UNCONDITIONALLY, as its first statements: the deadline is the earlier of the caller's and the client's (`timeout_is_min`)",
+		"request.take 2 = "+toks("call:WithTimeout", "defer:cancel"))
+	ob("reader_idle_timer_is_fresh_for_every_packet",
+		"`Connection.reader` arms a fresh `time.After(reconnectTimeout)` in every iteration of its select loop — every received packet, pongs included, restarts the silence period; no long-lived timer that some branch could forget to reset",
+		"count "+tok("call:After")+" connReader = 1 ∧ count "+tok("call:NewTimer")+" connReader = 0 ∧ count "+tok("call:Reset")+" connReader = 0 ∧ chain "+toks("select", "call:After", "call:reconnect")+" connReader = true")
 	b.WriteString("end TongoGen.ClientOrder\n")
 	return b.String(), nil
 }
